@@ -537,6 +537,17 @@ func (ex *Exec) sliceOp(s *State, fr *Frame, x *ssa.Slice) Value {
 	if !hasLo {
 		lo = IntC(0)
 	}
+	if g, ok := base.(PtrV); ok && g.Kind == PGlobal {
+		// package-level byte array: a pre-existing (not fresh) byte object
+		if at, isArr := ex.subst(g.Elem).Underlying().(*types.Array); isArr && isByteType(at.Elem()) {
+			obj := ex.st.Const("global."+sanitize(g.Field), SRef)
+			s.assumeOnce(Not(Eq(obj, Null)))
+			s.assumeOnce(Select(s.H(ex, "alloc", ArrSort(SRef, SBool)), obj))
+			s.assumeOnce(Eq(Select(s.H(ex, "blen", ArrSort(SRef, SInt)), obj), IntC(at.Len())))
+			s.assumeOnce(Eq(atypeOf(ex.st, obj), IntC(bytesTypeID)))
+			base = PtrV{Kind: PByteArr, Obj: obj, Idx: IntC(0), N: int(at.Len()), Elem: g.Elem}
+		}
+	}
 	switch b := base.(type) {
 	case PtrV:
 		if b.Kind == PSlotArr || b.Kind == PByteArr {
